@@ -1,3 +1,4 @@
+import XyzModel.Gen.Extracted
 /-!
 # `parse_var_names` / `parse_var_dims` (xyzpy/gen/prepare.py): the accepted spellings of an output description
 
@@ -75,12 +76,24 @@ def dictOf (pairs : List (Atom × List Atom)) : List (Atom × List Atom) :=
 
 /-- does a list/tuple spelling stand in one-to-one correspondence with `var_names`?
 `any(isinstance(x, str) or (len(x) == 0) or (x[0] not in var_names) for x in var_dims)` -/
+def elemIsStr : Elem → Bool
+  | .s _ => true
+  | .t _ => false
+
+def elemIsEmpty : Elem → Bool
+  | .s x => x.isEmpty
+  | .t l => l.isEmpty
+
+/-- `x[0] in var_names` (a tuple is never equal to a name; for a string `x[0]` is its first character) -/
+def elemFirstInNames (names : List String) : Elem → Bool
+  | .s x => names.contains (String.singleton (x.toList.headD ' '))
+  | .t (.s k :: _) => names.contains k
+  | .t _ => false
+
+/-- the element test and its quantifier are read off the source (`Gen.varDimsElemCorr`, `Gen.varDimsQuantAny`) -/
 def isCorrespondence (names : List String) (elems : List Elem) : Bool :=
-  elems.any fun
-    | .s _ => true
-    | .t [] => true
-    | .t (.s k :: _) => !names.contains k
-    | .t (.t _ :: _) => true
+  let p := fun e => Gen.varDimsElemCorr (elemIsStr e) (elemIsEmpty e) (elemFirstInNames names e)
+  if Gen.varDimsQuantAny then elems.any p else elems.all p
 
 /-- an element read as a (key, value) pair by `dict(var_dims)`; anything but a 2-sequence is a ValueError -/
 def asPair : Elem → Except Err (Atom × List Atom)
@@ -107,7 +120,7 @@ def parse (names : Option (List String)) (sp : Spelling) : Except Err Mapping :=
     | .none => .ok m0
     | .str d =>
       if d.isEmpty then .ok m0
-      else if names.length != 1 then .error .value
+      else if Gen.varDimsStrRefused names.length then .error .value
       else applyItems names m0 [(.s (names.headD ""), [.s d])]
     | .list elems =>
       if elems.isEmpty then .ok m0
